@@ -32,6 +32,8 @@ fn plan(tier: Tier) -> Vec<Workload> {
         Workload::new("enum5", tier.pick(0, n.pow(5) / 16 / BATCH)),
         Workload::new("random", tier.pick(200_000, 4_000_000) / BATCH),
         Workload::new("text", tier.pick(100_000, 2_000_000) / BATCH),
+        // the ranges the analyzer hands to its consumers (language server, CLI) for each file line
+        Workload::new("analyzer", tier.pick(60_000, 1_200_000) / 256),
     ]
 }
 
@@ -142,6 +144,53 @@ fn observe(ctx: &Ctx, rep: &mut Report, index: u64, line: &str, skip: usize, sou
     }
 }
 
+
+/// One file through the analyzer: for every file line the token ranges it reports (`token_types`) and the
+/// position it maps a tokenization error to must be exactly the tokenizer's ranges on that very line.
+fn analyzer_file(lines: &[String]) -> Result<(u64, u64), String> {
+    use abasic_core::{DiagnosticMessage, SourceFileAnalyzer};
+    let a = SourceFileAnalyzer::analyze(lines.join("\n"));
+    let tt = a.token_types();
+    if tt.len() != lines.len() {
+        return Err(format!("{} lines of token types for a file of {} lines", tt.len(), lines.len()));
+    }
+    let (mut ntok, mut nerr) = (0u64, 0u64);
+    for (i, line) in lines.iter().enumerate() {
+        let got: Vec<std::ops::Range<usize>> = tt[i].iter().map(|t| t.1.clone()).collect();
+        let Some((_, end)) = abasic_core::verif_hooks::parse_line_number(line) else {
+            if !got.is_empty() {
+                return Err(format!("file line {} {:?} has no line number but token ranges {:?}", i, line, got));
+            }
+            continue;
+        };
+        if line.is_empty() {
+            continue;
+        }
+        let mut want = vec![0..end];
+        let hook = tokenize(line, end);
+        match &hook {
+            Ok(tokens) => want.extend(tokens.iter().map(|t| t.range.clone())),
+            Err(_) => {}
+        }
+        if got != want {
+            return Err(format!("file line {} {:?}: the analyzer reports token ranges {:?}, the tokenizer on that line gives {:?}", i, line, got, want));
+        }
+        ntok += got.len() as u64;
+        if let Err(e) = &hook {
+            // the tokenization error of this line must be mapped to the tokenizer's error range
+            let mapped: Vec<_> = a.messages().iter().filter(|m| matches!(m, DiagnosticMessage::Error(l, _) if *l == i))
+                .filter_map(|m| a.source_file_map().map_to_source(m)).collect();
+            // (the hook reports an illegal character as one byte; the analyzer's range covers the whole character)
+            let char_end = line[e.range.start.min(line.len())..].chars().next().map(|c| e.range.start + c.len_utf8()).unwrap_or(e.range.end);
+            if !mapped.iter().any(|(l, r)| *l == i && r.start == e.range.start && (r.end == e.range.end || r.end == char_end)) {
+                return Err(format!("file line {} {:?}: tokenization error {} at {:?} is mapped to {:?}", i, line, e.kind, e.range, mapped));
+            }
+            nerr += 1;
+        }
+    }
+    Ok((ntok, nerr))
+}
+
 fn run_case(ctx: &Ctx, index: u64, rep: &mut Report) {
     match ctx.workload.as_str() {
         "enum" => {
@@ -199,6 +248,38 @@ fn run_case(ctx: &Ctx, index: u64, rep: &mut Report) {
             }
             rep.evaluations += BATCH - 1;
         }
+        "analyzer" => {
+            let mut rng = ctx.rng(index);
+            for _ in 0..256 {
+                let n = 1 + rng.usize(5);
+                let mut lines = vec![];
+                for k in 0..n {
+                    let body = if rng.chance(1, 5) { crate::gen::text::random_line(&mut rng, 30).replace('\n', " ") } else { toks::join(&toks::random_pieces(&mut rng, 8)) };
+                    let indent = *rng.pick(&["", "", "", " ", "  ", "\t", " \t ", "\u{feff}", "\u{a0}"]);
+                    let number = match rng.below(8) { 0 => "007".to_string(), 1 => "18446744073709551615".to_string(), 2 => "18446744073709551616".to_string(), 3 => String::new(), _ => (10 * (k + 1)).to_string() };
+                    let sep = *rng.pick(&[" ", "", "  ", "\t"]);
+                    let tail = *rng.pick(&["", "", "", " ", "\r", "  \t"]);
+                    lines.push(format!("{}{}{}{}{}", indent, number, sep, body, tail));
+                }
+                match crate::util::catch(|| analyzer_file(&lines)) {
+                    Err(m) => ctx.violation(rep, "C13", &format!("analyzer-panic:{}", m.rsplit(" @ ").next().unwrap_or("")), index,
+                        format!("analyzing {:?} panicked: {}", lines, m), json!({"file": lines})),
+                    Ok(Err(m)) => {
+                        let sig = if m.contains("mapped to") { "analyzer-error-range" } else { "analyzer-token-ranges" };
+                        ctx.violation(rep, "C13", sig, index, m, json!({"file": lines}));
+                    }
+                    Ok(Ok((ntok, nerr))) => {
+                        rep.add("analyzer.tokens_checked", ntok);
+                        rep.add("analyzer.error_ranges_checked", nerr);
+                        rep.count("analyzer.files");
+                        if lines.iter().any(|l| l.starts_with(|c: char| c == ' ' || c == '\t')) {
+                            rep.count("analyzer.files_with_indented_line");
+                        }
+                    }
+                }
+            }
+            rep.evaluations += 255;
+        }
         other => panic!("unknown workload {}", other),
     }
 }
@@ -210,15 +291,18 @@ fn finalize(tier: Tier, rep: &mut Report) -> Finalize {
     Finalize {
         rule: format!(
             "enum: every concatenation of 1..={} atoms from a {}-atom alphabet (keywords, operators, identifiers incl. keyword-bearing ones, numerals, string literals, blanks, REM, DATA forms, multi-byte and illegal characters, an unpaired quote); \
-             random: G-tok lines of up to 14 atoms, a third with a line-number prefix; text: arbitrary UTF-8 lines. A case is one line; it is non-trivial when at least 2 tokens were range-checked and the line contains a blank or a multi-byte character; distinct by hash of the line text (lower bound: hash recording is capped per worker).",
+             random: G-tok lines of up to 14 atoms, a third with a line-number prefix; text: arbitrary UTF-8 lines; analyzer: files of 1-5 lines (indentation, odd line numbers, trailing blanks / CR) through SourceFileAnalyzer: the token ranges it reports per file line and the range it maps a tokenization error to must equal the tokenizer's on that line. A case is one line; it is non-trivial when at least 2 tokens were range-checked and the line contains a blank or a multi-byte character; distinct by hash of the line text (lower bound: hash recording is capped per worker).",
             enum_len(tier), n),
         floors: vec![
             ("lines_tokenized".into(), 50_000),
             ("lines_failed".into(), 5_000),
             ("tokens_checked".into(), 200_000),
+            ("analyzer.tokens_checked".into(), 100_000),
+            ("analyzer.error_ranges_checked".into(), 2_000),
+            ("analyzer.files_with_indented_line".into(), 5_000),
             ("distinct_nontrivial".into(), 10_000),
         ],
-        assumptions: vec!["the hook `verif_hooks::tokenize` calls the same Tokenizer the interpreter and the analyzer use".into()],
+        assumptions: vec!["the hook `verif_hooks::tokenize` calls the same Tokenizer the interpreter uses; that the analyzer passes the same ranges on is checked by the analyzer workload".into()],
         exhaustive,
         extras: json!({"enumeration": {"atoms": n, "max_len": enum_len(tier), "sequences": total, "complete": exhaustive}}),
     }
